@@ -28,7 +28,7 @@ def validated_list(listterm, got):
 
 def fee_value(p, acct, rate):
     """expected new fee info for a supplied (account, rate) pair on this path"""
-    both_empty = p.holds(EQ(S(''), acct), True) is not None and p.holds(EQ(S(''), rate), True) is not None
+    both_empty = p.str_empty(acct) is not None and p.str_empty(rate) is not None
     if both_empty: return ('adt', 'std::option::Option', 'None', ())
     return ('adt', 'std::option::Option', 'Some', (('0', ('adt', 'common::FeeInfo', 'FeeInfo', (('account', ('ok', ('rcall', 'addr_validate', (acct,)))), ('rate', rate)))),))
 
